@@ -379,8 +379,12 @@ func readTXTStatus(data []byte) (TXTStatus, error) {
 func readTXTErrorCode(data []byte) (TXTErrorCode, uint32, error) {
 	var ret TXTErrorCode
 	var u32 uint32
-	buf := bytes.NewReader(data[txtErrorCode:])
-	err := binary.Read(buf, binary.LittleEndian, &u32)
+	buf := bytes.NewReader(data)
+	_, err := buf.Seek(txtErrorCode, io.SeekStart)
+	if err != nil {
+		return ret, 0, err
+	}
+	err = binary.Read(buf, binary.LittleEndian, &u32)
 	if err != nil {
 		return ret, 0, err
 	}
@@ -400,8 +404,12 @@ func readTXTErrorCode(data []byte) (TXTErrorCode, uint32, error) {
 func readDMAProtectedRange(data []byte) (hwapi.DMAProtectedRange, error) {
 	var ret hwapi.DMAProtectedRange
 	var u32 uint32
-	buf := bytes.NewReader(data[txtDMAProtectedRange:])
-	err := binary.Read(buf, binary.LittleEndian, &u32)
+	buf := bytes.NewReader(data)
+	_, err := buf.Seek(txtDMAProtectedRange, io.SeekStart)
+	if err != nil {
+		return ret, err
+	}
+	err = binary.Read(buf, binary.LittleEndian, &u32)
 	if err != nil {
 		return ret, err
 	}
@@ -417,8 +425,12 @@ func readDMAProtectedRange(data []byte) (hwapi.DMAProtectedRange, error) {
 func ReadACMStatus(data []byte) (ACMStatus, error) {
 	var ret ACMStatus
 	var u64 uint64
-	buf := bytes.NewReader(data[txtACMStatus:])
-	err := binary.Read(buf, binary.LittleEndian, &u64)
+	buf := bytes.NewReader(data)
+	_, err := buf.Seek(txtACMStatus, io.SeekStart)
+	if err != nil {
+		return ret, err
+	}
+	err = binary.Read(buf, binary.LittleEndian, &u64)
 	if err != nil {
 		return ret, err
 	}
